@@ -57,7 +57,12 @@ SeedSkip ==    \* passes that only have work to do because an earlier pass of th
 SeedSigned ==  \* constraints on a glyph attribute that is negative for one glyph of the class (c carries -1): signed comparison
   { << [kind |-> "sub", rules |-> << R(0, <<2>>, <<I("glyph", 3)>>, [kind |-> "gattr", item |-> 0, val |-> v, f |-> 0], 0),
                                     R(0, <<2>>, <<I("glyph", 4)>>, NoCon, 0) >>] >> : v \in {-1, 0, 1} }
-Seeds == SeedMarks \cup SeedChains \cup SeedRecycle \cup SeedOrder \cup SeedSkip \cup SeedSigned
+SeedDeleteRoot == \* a cluster whose children are not next to each other in the stream (a x b x: both x attached to a), then
+                  \* its root is deleted: the children become bases, each with its own place in the line
+  { << [kind |-> "sub", rules |-> << R(0, <<1, 3, 2, 3>>, <<NoItem, Att(-1, 30), NoItem, Att(r4, 20)>>, NoCon, 0) >>],
+       [kind |-> "sub", rules |-> << R(0, <<1>>, <<I("delete", 0)>>, [kind |-> "gattr", item |-> 0, val |-> 0, f |-> 0], 0) >>],
+       [kind |-> "pos", rules |-> << R(0, <<3>>, <<[NoItem EXCEPT !.shift = 40]>>, NoCon, 0) >>] >> : r4 \in {-3, -1} }
+Seeds == SeedDeleteRoot \cup SeedMarks \cup SeedChains \cup SeedRecycle \cup SeedOrder \cup SeedSkip \cup SeedSigned
 SpecSeeded == InitSeeded(Seeds) /\ [][Next]_vars
 SpecSeededF == InitSeeded(SeedFeat) /\ [][Next]_vars
 =============================================================================
